@@ -19,7 +19,7 @@ import numpy as np
 PROP = "C16"
 LEVEL = "exploration"
 VARIANTS = ("omp",)
-CASE_TIMEOUT = 400
+CASE_TIMEOUT = 1200
 RULE = ("kind saveload: zoo crystal (extended symbols, magnetic moments, custom masses) x calculator (16 names) x dataset type (1|2|none) x FC in file (full|compact|none) "
         "x NAC x compression x settings dict -> save() -> load() in a clean directory AND in a directory with decoy FORCE_CONSTANTS / force_constants.hdf5 / FORCE_SETS / BORN; "
         "compared: cells, matrices, dataset, FC, NAC, calculator, unit factor, phonon eigenvalues; "
